@@ -61,5 +61,5 @@ PROPS = {
               "event set (forks below one third).", props=["LachesisVerif.Props.C10"], level="proof"),
     "C33": _p("Proof: for every history of addRoot/GetFrameRoots/epoch switches and EVERY cache eviction policy, GetFrameRoots f returns exactly "
               "the roots registered for f in the current epoch; a new epoch starts empty (key layout abstracted to records, injectivity is C32). "
-              "Correspondence: GetFrameRoots compared with the set of registered roots of the reference for cache sizes 0/1/small/default, across epoch switches."),
+              "Correspondence: GetFrameRoots compared with the set of registered roots of the reference for cache sizes 0/1/small/default, across epoch switches.", props=["LachesisVerif.Props.C33"], level="proof"),
 }
